@@ -1,1 +1,7 @@
 import SmtpV.Props.C17
+#print axioms SmtpV.Props.C17.C17_roundtrip
+#print axioms SmtpV.Props.C17.C17_roundtrip_single
+#print axioms SmtpV.Props.C17.render_lines
+#print axioms SmtpV.Props.C17.C17_unset_class
+#print axioms SmtpV.Props.C17.C17_generic_envelope
+#print axioms SmtpV.Props.C17.C17_generic_data
